@@ -181,7 +181,10 @@ def run_one(mod: Any, drv: Any, case: Dict[str, Any]) -> Dict[str, Any]:
         # (and counted), never judged
         res.update({"status": "skipped", "features": {"generator_outside_quantifier": 1}, "nontrivial": False})
         return res
+    from harness import htaio as _htaio
+    del _htaio.LOAD_NOTES[:]
     obs = mod.observe(case)
+    load_notes = list(_htaio.LOAD_NOTES)
     res["obs_digest"] = digest([obs.get("canon"), obs.get("rows"), obs.get("key")])
     if hasattr(mod, "in_domain") and not mod.in_domain(case, obs):
         # outside the property's quantifier (judged on what was actually loaded): not counted
@@ -199,12 +202,15 @@ def run_one(mod: Any, drv: Any, case: Dict[str, Any]) -> Dict[str, Any]:
         viol += [f"lean-spec: {v}" for v in mod.spec_check(drv, case, obs)]
     if hasattr(mod, "oracle"):
         viol += [f"oracle: {v}" for v in mod.oracle(case, obs)]
+    viol += [f"oracle: {v}" for v in load_notes]
     if viol:
         res["status"] = "violation"
         res["violations"] = viol[:10]
     res["features"] = mod.features(case, obs) if hasattr(mod, "features") else {}
     if isinstance(case, dict) and case.get("pre"):
         res["features"]["history_other_analyses_first"] = 1
+    if isinstance(case, dict) and isinstance(case.get("ranks"), dict) and len(case["ranks"]) >= 9:
+        res["features"]["nine_or_more_ranks"] = 1
     res["nontrivial"] = bool(mod.nontrivial(case, obs, res["features"])) if hasattr(mod, "nontrivial") else True
     if hasattr(mod, "sample"):
         res["sample"] = mod.sample(case, obs)
